@@ -23,6 +23,7 @@ TReset ==
     /\ sv' = [c \in Ports |-> [st |-> "none", fd |-> 0]]
     /\ lh' = [st |-> "none", fd |-> 0]
     /\ zw' = FALSE
+    /\ rwd' = FALSE
     /\ last' = [a |-> "init"]
 
 TAct ==
@@ -47,7 +48,7 @@ TAct ==
 TGhost == /\ \/ Is("apark") /\ P_APark(E.a)
              \/ Is("aunpark") /\ P_AUnpark(E.a)
              \/ Is("wakes") /\ P_Wakes(E.woken, E.lq)
-          /\ UNCHANGED <<ks, wire, cl, sv, lh, zw, last>>
+          /\ UNCHANGED <<ks, wire, cl, sv, lh, zw, rwd, last>>
 
 TNext == /\ pfx' = pfx
          /\ \/ TReset
